@@ -49,18 +49,18 @@ def takeDigits : List Nat → List Nat × List Nat
 
 def digitsVal (d : List Nat) : Nat := d.foldl (fun a c => a * 10 + (c - 48)) 0
 
-/-- sign? digits [. digits] [e sign? digits]; no leading zeros; at least one digit before the point -/
+/-- sign? (digits [. digits?] | . digits) [e sign? digits]; no leading zeros; `1.` and `.5` are
+accepted like `Digit::StringToNumber` does (a lone `.` is not) -/
 def readLit (s : List Nat) : Option Lit :=
   let (neg, s) := match s with
     | 45 :: r => (true, r) | 43 :: r => (false, r) | _ => (false, s)
   let (ip, s) := takeDigits s
-  if ip.isEmpty then none
-  else if ip.length > 1 && ip.head? == some 48 then none
+  if ip.length > 1 && ip.head? == some 48 then none
   else
     let (fp, s, hasDot) := match s with
       | 46 :: r => let (f, r') := takeDigits r; (f, r', true)
       | _ => ([], s, false)
-    if hasDot && fp.isEmpty then none
+    if ip.isEmpty && fp.isEmpty then none
     else
       match s with
       | [] => some ⟨neg, digitsVal (ip ++ fp), fp.length, false, 0, hasDot⟩
